@@ -37,8 +37,20 @@ def run_property(pid: str, tier: str, prog=None, quiet=False) -> int:
         ck.extra["modules_parsed"] = len(p.modules)
         ck.extra["functions_indexed"] = len(p.funcs)
         mod.run(ck, p, tier)
-        if tier == "thorough" and hasattr(mod, "thorough") and not ck.findings:
-            mod.thorough(ck, p)
+        if tier == "thorough":
+            if hasattr(mod, "thorough"):
+                mod.thorough(ck, p)
+            from .report import load_known_findings
+            known = load_known_findings().get(pid, {})
+            if all(f.ident in known for f in ck.findings) and not ck.errors and prog is None:
+                # the tree is clean: replay the variant catalogue in memory and run the package sweeps
+                from .selftest import selftest
+                from .sweeps import sweeps
+                ck.rules_text = dict(ck.rules_text)
+                ck.rules_text[f"{pid}.selftest"] = ("self-test: every breaking variant of the current tree (catalogue + confirmed seeded changes) is reported, "
+                                                    "every neutral variant stays silent")
+                selftest(ck, pid)
+                sweeps(ck, p, pid)
         return ck.finish()
     return run_guarded(pid, tier, go)
 
